@@ -77,6 +77,10 @@ def run(ctx):
     share(ctx, c09, {"R09.6": "R03.3"}, only=("retain-iff-now-le-expiry", "now-is-clock-now"))
     stale_entries(ctx, T)
     no_overwrite(ctx, "R03.5")
+    # ---- R03.7 the space test of a put sees the space that is really free: when the worker retires a dead incarnation of
+    # the put's key (expired, not yet swept), it does so *before* admission runs - a dead entry still charged during
+    # admission is counted as memory pressure and makes a put that fits evict live, unrelated keys
+    retire_before_admission(ctx, "R03.7")
     # ---- R03.6 the hooks remove by the key recorded with the released id ------------------------------------
     n_hooks = 0
     for name, f in F.fns.items():
@@ -211,3 +215,39 @@ def no_overwrite(ctx, RULE):
         if o["rule"] == "R05.3":
             ctx._add(o["status"], RULE, o["key"].split("|", 1)[1],
                      o["desc"] + " [needed here because the eviction/expiry hooks remove the store entry by key: an overwritten entry would make a stale id remove a newer incarnation]", o["where"], o["detail"])
+
+
+def retire_before_admission(ctx, RULE):
+    from sym import ipaths, focus
+    from core import same_value
+    from weight import WeightModel
+    from storemodel import StoreModel
+    import c05
+    F = ctx.facts
+    M = WeightModel(ctx)
+    S = StoreModel(ctx)
+    charge_fns = {s_["fn"].name for s_ in M.inc_sites if s_["amount"][0] != "binop" or s_["amount"][1] != "Sub"}
+    admit = {n for n, f in F.fns.items() if f.rec.get("ret", "").endswith("command::CommandStatus") and any(t.get("rpath") in charge_fns for b, t in f.calls())}
+    status_fns = {n for n, g in F.fns.items() if g.kind != "Closure" and (g.rec.get("ret") or "").endswith("CommandStatus")}
+    stop = focus(F, admit | set(S.insert_fns) | set(S.remove_fns))
+    hc = {}
+    for n in sorted(status_fns - admit):
+        ps = ipaths(F, F.fns[n], stop=stop, depth=3)
+        if any(p.calls(S.insert_fns) for p in ps) and any(p.calls(admit) for p in ps):
+            hc[n] = ps
+    outer = [n for n in hc if not any(t.get("rpath") == n for m in hc if m != n for b, t in F.fns[m].calls())]
+    for n in outer:
+        bad = []
+        for p in hc[n]:
+            adm = p.calls(admit)
+            ins = p.calls(S.insert_fns)
+            if not adm or not ins:
+                continue
+            kp, ip = c05.insert_params(F, F.fns[ins[0].callee])
+            key = ins[0].args[kp - 1] if kp else None
+            for e in p.calls(S.remove_fns):
+                if key is not None and any(same_value(a, key) for a in e.args[1:]) and e.seq > adm[0].seq:
+                    bad.append("%s removes the put's old entry after admission ran (%s)" % (e.callee.split("::")[-1], p.show()))
+        ctx.check(not bad, RULE, "%s|dead-incarnation-retired-before-admission" % n,
+                  "a dead incarnation of the put's key is removed (and its weight released) before the admission decision, so admission never evicts for space that an unreadable entry of the same key still occupies", F.fns[n].where(), "; ".join(sorted(set(bad))[:2]))
+    ctx.floor(RULE, "put handlers (admission then insert)", len(outer), 1)
